@@ -10,6 +10,9 @@ pub struct AstGen {
     /// minimal nesting budget a value of the type needs
     need: Vec<u32>,
     pub root_statement: usize,
+    /// use the domain knowledge for identifiers and numbers (statements()); off for the C16/C17
+    /// generators, which want arbitrary values
+    pub realistic: bool,
 }
 
 const INF: u32 = 1_000_000;
@@ -46,7 +49,7 @@ impl AstGen {
                 break;
             }
         }
-        AstGen { root_statement: j["roots"]["Statement"].as_u64().unwrap() as usize, types, need }
+        AstGen { root_statement: j["roots"]["Statement"].as_u64().unwrap() as usize, types, need, realistic: false }
     }
 
     pub fn min_need(&self, id: usize) -> u32 {
@@ -117,6 +120,27 @@ impl AstGen {
     /// a value of schema type `id` whose nesting of named types is at most `budget` (>= min_need(id))
     pub fn gen_named(&self, id: usize, budget: u32, rng: &mut Rng) -> Value {
         let t = &self.types[id];
+        // domain knowledge that the type system does not carry (otherwise most printed values are
+        // rejected or panic in Display): an identifier's quote is one of the quote characters, an
+        // unquoted identifier is a word; a number's text is numeric.  One value in eight stays raw.
+        if self.realistic && !rng.chance(1, 8) {
+            match t["name"].as_str().unwrap_or("") {
+                "Ident" if t["kind"] == "struct" && t["variants"][0]["fields"].as_array().map(|f| f.len()) == Some(2) => {
+                    let words = ["a", "b", "t1", "col", "my_tab", "x9", "Tbl", "v"];
+                    let payloads = ["a", "x y", "SELECT", "é", "a\"b", "it's", "a`b", "t.1", "𝔘", "a]b"];
+                    return match rng.below(5) {
+                        0 => json!({"value": *rng.pick(&payloads), "quote_style": "\""}),
+                        1 => json!({"value": *rng.pick(&payloads), "quote_style": *rng.pick(&["`", "[", "\""])}),
+                        _ => json!({"value": *rng.pick(&words), "quote_style": Value::Null}),
+                    };
+                }
+                "Value" if t["kind"] == "enum" && rng.chance(1, 3) => {
+                    let nums = ["0", "1", "42", "1.5", "007", "1e3", ".5", "12345678901234567890"];
+                    return json!({"Number": [*rng.pick(&nums), rng.chance(1, 6)]});
+                }
+                _ => {}
+            }
+        }
         let vs = t["variants"].as_array().unwrap();
         let b = budget.saturating_sub(1);
         if t["kind"] == "struct" {
